@@ -24,15 +24,16 @@ package broker
 //@   ensures [C43.expired_removed_exactly] forall k string :: has(s.members, k) == (old(has(s.members, k)) && !expired(mapval(s.members, k), now))
 //@   ensures [C43.expiry_reported] result == (exists k string :: old(has(s.members, k)) && !has(s.members, k))
 //@   ensures [C43.expiry_drops_assignment] forall k string :: has(s.assignments, k) == (old(has(s.assignments, k)) && !(old(has(s.members, k)) && !has(s.members, k)))
-//@   ensures [C43.expiry_keeps_records] keepsField("memberState", "*") && (forall k string :: mapval(s.members, k) == old(mapval(s.members, k)) && mapval(s.assignments, k) == old(mapval(s.assignments, k)))
+//@   ensures [C43.expiry_keeps_records] keepsField("memberState", "*") && (forall k string :: mapval(s.members, k) == old(mapval(s.members, k)) && sameSlice(mapval(s.assignments, k), old(mapval(s.assignments, k))))
 //@   ensures [C43.expiry_leader] ite(old(has(s.members, s.leaderID)) && !has(s.members, old(s.leaderID)), s.leaderID == "", s.leaderID == old(s.leaderID))
 //@   ensures [C43.expiry_phase] s.state == old(s.state) || (len(s.members) == 0 && s.state == groupStateEmpty)
 //@   ensures [C14.expiry_keeps_group_invariant] old(groupInv(s)) ==> groupInv(s)
-//@   ensures groupOK(s) && s.members == old(s.members) && s.assignments == old(s.assignments) && s.generationID == old(s.generationID) && s.rebalanceDeadline == old(s.rebalanceDeadline) && s.rebalanceTimeout == old(s.rebalanceTimeout)
+//@   ensures s.members == old(s.members) && s.assignments == old(s.assignments) && s.generationID == old(s.generationID) && s.rebalanceDeadline == old(s.rebalanceDeadline) && s.rebalanceTimeout == old(s.rebalanceTimeout)
+//@   ensures groupOK(s)
 //@   ensures keepsMap("string", "*memberState", s.members) && keepsMap("string", "[]assignmentTopic", s.assignments) && (forall g *groupState :: g != s ==> g.leaderID == old(g.leaderID) && g.state == old(g.state))
 //@   loop 1 invariant forall k string :: has(s.members, k) == (old(has(s.members, k)) && !(seen(1, k) && expired(mapval(s.members, k), now)))
 //@   loop 1 invariant forall k string :: has(s.assignments, k) == (old(has(s.assignments, k)) && !(old(has(s.members, k)) && !has(s.members, k)))
-//@   loop 1 invariant forall k string :: mapval(s.members, k) == old(mapval(s.members, k)) && mapval(s.assignments, k) == old(mapval(s.assignments, k))
+//@   loop 1 invariant forall k string :: mapval(s.members, k) == old(mapval(s.members, k)) && sameSlice(mapval(s.assignments, k), old(mapval(s.assignments, k)))
 //@   loop 1 invariant changed == (exists k string :: old(has(s.members, k)) && !has(s.members, k))
 //@   loop 1 invariant ite(old(has(s.members, s.leaderID)) && !has(s.members, old(s.leaderID)), s.leaderID == "", s.leaderID == old(s.leaderID))
 //@   loop 1 invariant keepsMap("string", "*memberState", s.members) && keepsMap("string", "[]assignmentTopic", s.assignments) && (forall g *groupState :: g != s ==> g.leaderID == old(g.leaderID))
@@ -47,15 +48,16 @@ package broker
 //@   ensures [C43.laggers_removed_exactly] deadlinePassed(s, now) ==> forall k string :: has(s.members, k) == (old(has(s.members, k)) && mapval(s.members, k).joinGeneration == s.generationID)
 //@   ensures [C43.laggers_reported] result == (exists k string :: old(has(s.members, k)) && !has(s.members, k))
 //@   ensures [C43.laggers_drop_assignment] forall k string :: has(s.assignments, k) == (old(has(s.assignments, k)) && !(old(has(s.members, k)) && !has(s.members, k)))
-//@   ensures [C43.laggers_keep_records] keepsField("memberState", "*") && (forall k string :: mapval(s.members, k) == old(mapval(s.members, k)) && mapval(s.assignments, k) == old(mapval(s.assignments, k)))
+//@   ensures [C43.laggers_keep_records] keepsField("memberState", "*") && (forall k string :: mapval(s.members, k) == old(mapval(s.members, k)) && sameSlice(mapval(s.assignments, k), old(mapval(s.assignments, k))))
 //@   ensures [C43.laggers_leader] ite(old(has(s.members, s.leaderID)) && !has(s.members, old(s.leaderID)), s.leaderID == "", s.leaderID == old(s.leaderID))
 //@   ensures [C43.laggers_phase] s.state == old(s.state) || (len(s.members) == 0 && s.state == groupStateEmpty)
 //@   ensures [C14.laggers_keep_group_invariant] old(groupInv(s)) ==> groupInv(s)
-//@   ensures groupOK(s) && s.members == old(s.members) && s.assignments == old(s.assignments) && s.generationID == old(s.generationID) && s.rebalanceDeadline == old(s.rebalanceDeadline) && s.rebalanceTimeout == old(s.rebalanceTimeout)
+//@   ensures s.members == old(s.members) && s.assignments == old(s.assignments) && s.generationID == old(s.generationID) && s.rebalanceDeadline == old(s.rebalanceDeadline) && s.rebalanceTimeout == old(s.rebalanceTimeout)
+//@   ensures groupOK(s)
 //@   ensures keepsMap("string", "*memberState", s.members) && keepsMap("string", "[]assignmentTopic", s.assignments) && (forall g *groupState :: g != s ==> g.leaderID == old(g.leaderID) && g.state == old(g.state))
 //@   loop 1 invariant forall k string :: has(s.members, k) == (old(has(s.members, k)) && !(seen(1, k) && mapval(s.members, k).joinGeneration != s.generationID))
 //@   loop 1 invariant forall k string :: has(s.assignments, k) == (old(has(s.assignments, k)) && !(old(has(s.members, k)) && !has(s.members, k)))
-//@   loop 1 invariant forall k string :: mapval(s.members, k) == old(mapval(s.members, k)) && mapval(s.assignments, k) == old(mapval(s.assignments, k))
+//@   loop 1 invariant forall k string :: mapval(s.members, k) == old(mapval(s.members, k)) && sameSlice(mapval(s.assignments, k), old(mapval(s.assignments, k)))
 //@   loop 1 invariant changed == (exists k string :: old(has(s.members, k)) && !has(s.members, k))
 //@   loop 1 invariant ite(old(has(s.members, s.leaderID)) && !has(s.members, old(s.leaderID)), s.leaderID == "", s.leaderID == old(s.leaderID))
 //@   loop 1 invariant keepsMap("string", "*memberState", s.members) && keepsMap("string", "[]assignmentTopic", s.assignments) && (forall g *groupState :: g != s ==> g.leaderID == old(g.leaderID))
